@@ -261,6 +261,37 @@ pub(crate) fn table() -> Vec<F> {
             call: |a| { let mut o = outs_from(a); let i = a.u() as usize; let s = a.b(); o.set_spent(i, s); format!("ok {}", outs_enc(&o)) } },
         F { key: "Fixture.Outs.all_spent", prop: "FIX", gen: |r| gen_outs(r),
             call: |a| format!("ok {}", outs_from(a).all_spent()) },
+        F { key: "Fixture.summarize", prop: "FIX",
+            gen: |r| { let n = r.below(5); let mut s = n.to_string();
+                       for _ in 0..n { s += &format!(" {} {}", r.below(3), match r.below(5) { 0 => u64::MAX, 1 => u64::MAX / 2 + 1, _ => r.below(9) }); } s },
+            call: |a| { let n = a.u(); let hs: Vec<Pay> = (0..n).map(|_| { let hash = a.u() as u32; Pay { hash, value: a.u() } }).collect();
+                        format!("ok {}", map_enc(summarize(&hs).iter())) } },
+        F { key: "Fixture.merge_max", prop: "FIX",
+            gen: |r| { let m = |r: &mut Rng| { let mut s = String::new(); let mut n = 0;
+                           for k in [3u64, 1, 9, 2, u64::MAX] { if r.chance(1, 2) { s += &format!(" {} {}", k, *r.pick(&[0u64, 5, 7, 8, u64::MAX])); n += 1; } }
+                           format!("{}{}", n, s) };
+                       format!("{} {} {} {}", m(r), m(r), m(r), *r.pick(&[3u64, 1, 9, 2, 4])) },
+            call: |a| { let ea = map_from(a); let eb = map_from(a); let ec = map_from(a); let probe = a.u();
+                        let mut m: HashMap<u64, u64> = ea.iter().copied().collect();
+                        let (n, o) = merge_max(&mut m, eb.iter().copied().collect(), ec.iter().copied().collect(), probe);
+                        // print in the model's list order: the keys of `a` in argument order, then the new keys of `b`
+                        let mut keys: Vec<u64> = ea.iter().map(|e| e.0).collect();
+                        for e in eb.iter() { if !keys.contains(&e.0) { keys.push(e.0); } }
+                        let body: Vec<String> = keys.iter().filter(|k| m.contains_key(k)).map(|k| format!("({},{})", k, m[k])).collect();
+                        format!("ok ([{}],({},{}))", body.join(","), n, enc_opt(o)) } },
+        F { key: "Fixture.ChanId.from_parts", prop: "FIX",
+            gen: |r| { let n = match r.below(4) { 0 => 3, 1 => 5, _ => 4 }; let b = gen_bytes(r, n); format!("{} {}", arg_list(&b), edge64(r)) },
+            call: |a| { let p = bytes_from(a); let o = a.u(); format!("ok {}", l8(&ChanId::from_parts(&p, o).0)) } },
+        F { key: "Fixture.ChanId.oid", prop: "FIX",
+            gen: |r| { let n = match r.below(4) { 0 => 7, 1 => 8, 2 => r.below(7), _ => 12 }; let b = gen_bytes(r, n); arg_list(&b) },
+            call: |a| format!("ok {}", ChanId(bytes_from(a)).oid()) },
+        F { key: "Fixture.ChanId.into_len", prop: "FIX",
+            gen: |r| { let n = r.below(6); let b = gen_bytes(r, n); arg_list(&b) },
+            call: |a| format!("ok {}", ChanId(bytes_from(a)).into_len()) },
+        F { key: "Fixture.Guarded.height_plus", prop: "FIX", gen: |r| format!("{} {}", gen_acc(r), small_or_edge32(r)),
+            call: |a| { let g = Guarded { st: std::sync::Mutex::new(acc_from(a)) }; let d = a.u() as u32; format!("ok {}", g.height_plus(d)) } },
+        F { key: "Fixture.Guarded.total", prop: "FIX", gen: |r| gen_acc(r),
+            call: |a| { let g = Guarded { st: std::sync::Mutex::new(acc_from(a)) }; format!("ok {}", g.total()) } },
         F { key: "Fixture.Holder.mark", prop: "FIX",
             gen: |r| format!("{} {} {} {}", if r.chance(1, 4) { "-".to_string() } else { format!("+ {}", gen_outs(r)) },
                              if r.chance(1, 4) { U32M } else { r.below(9) }, r.below(4), arg_list(&[r.below(3)][..r.below(2) as usize])),
